@@ -22,7 +22,8 @@ import scipy.linalg as sla
 from . import common
 
 PROP = "C11"
-LEAN_MODULES = ["MiciVerif.Props.C11"]
+LEAN_MODULES = ["MiciVerif.Props.C11", "MiciVerif.Props.C11S"]
+GENERATED = ["matrix_ops"]
 LEAN_EXTRA = [
     "MiciVerif.Model.MatricesGrad",
     "MiciVerif.Lemmas.MatricesGrad",
@@ -872,7 +873,14 @@ def run(ctx: common.Ctx):
         for _sig, text in fails:
             ctx.violation(obj.get("signature", _sig), f"corpus/{f.name}: {text}", {"case": obj["case"], "corpus": f.name})
     fams = ["sid", "diag", "tri", "dense", "prod", "lowrank", "block", "identity"]
-    per_fam = ctx.n(400, 4000)
+    # a broken C11S obligation (an extracted gradient formula no longer evaluates to the model's definition)
+    # escalates the failing-input search; the driver only needs the model modules
+    broken_s = [o["theorem"] for o in ctx.obligations if not o["ok"] and ".C11S." in o["theorem"]]
+    if not ctx.build_ok:
+        common.lake_build(LEAN_EXTRA)
+    if broken_s:
+        ctx.extra["escalated_by"] = broken_s[:8]
+    per_fam = (2 if broken_s else 1) * ctx.n(400, 4000)
     cases = []
     for fam in fams:
         for i in range(per_fam if fam != "identity" else max(4, per_fam // 8)):
@@ -1073,5 +1081,7 @@ LEVEL_NOTE = (
 TECHNIQUE = (
     "Lean 4 theorems in dual-number style (eps^2 = 0: Jacobi formula, first-order inverse, Daleckii-Krein for polynomials) "
     "per differentiable class + exact DualNumber-Q evaluation of the same definitions compared with the implementation + "
-    "finite-difference oracle on dense NumPy formulas"
+    "finite-difference oracle on dense NumPy formulas + AST translator (tools/extractors/matrix_ops.py) of the gradient "
+    "method bodies, each proved (Props/C11S, for all values, by evaluation of the extracted expression) to be the model "
+    "definition the C11 theorems are about"
 )
